@@ -35,6 +35,8 @@ Record et_err := {
 Record et_env := {
   et_flag : bool;      (* t.stopAndDelete.Load() *)
   et_deleted : bool;   (* len(t.deleteCreatedFiles()) > 0 *)
+  et_window : bool;    (* t.tunnelConn.Load() != nil && !t.tunnelConnected: a client has greeted on the
+                          tunnel but its ACT has not been read, the writer is still the in-band one *)
 }.
 
 (* ---- the error predicates of comm.go: [if guard { return b }]* ; return final ---- *)
@@ -92,6 +94,7 @@ Inductive et_cond :=
 | CPred (name : et_pname)       (* e.<name>() *)
 | CFlag                         (* t.stopAndDelete.Load() *)
 | CDeleted                      (* len(deletedFiles) > 0 *)
+| CWindow                       (* conn := t.tunnelConn.Load(); conn != nil && !t.tunnelConnected *)
 | CVar (v : et_var)             (* a boolean local *)
 | CConst (b : bool)
 | CNot (a : et_cond)
@@ -107,24 +110,27 @@ Inductive et_stmt :=
 | TSetStr (v : et_var) (s : et_word)
 | TDelete                                  (* deletedFiles := t.deleteCreatedFiles() *)
 | TSend (typ : et_sexp) (names : bool)     (* t.sendString(typ, ..); names: the text lists deletedFiles *)
+| TSwitchWriter                            (* t.writer = *conn  (conn: the accepted tunnel connection) *)
 | TExit (names : bool)                     (* t.serverExit(..) *)
 | TIf (c : et_cond) (thn els : list et_stmt)
 | TReturn
 | TUnknownStmt.
 
-Inductive et_act := AClean | ADelete | ASend (typ : et_word) (names : bool) | AExit (names : bool).
+(* ASend: line type, lists the deleted names, written to the accepted tunnel connection *)
+Inductive et_act := AClean | ADelete | ASend (typ : et_word) (names : bool) (tunnel : bool) | AExit (names : bool).
 
 Record et_state := {
   es_bools : list (et_var * bool);
   es_strs : list (et_var * et_word);
   es_deleted_known : bool;     (* deleteCreatedFiles() has been called *)
+  es_tunnel : bool;            (* t.writer is the accepted tunnel connection *)
   es_acts : list et_act;       (* in reverse order *)
   es_ret : bool;               (* returned *)
   es_ok : bool;                (* everything was understood *)
 }.
 
 Definition et_init : et_state :=
-  {| es_bools := []; es_strs := []; es_deleted_known := false; es_acts := []; es_ret := false; es_ok := true |}.
+  {| es_bools := []; es_strs := []; es_deleted_known := false; es_tunnel := false; es_acts := []; es_ret := false; es_ok := true |}.
 
 Fixpoint et_lookup {A} (l : list (et_var * A)) (n : et_var) : option A :=
   match l with
@@ -148,6 +154,7 @@ Fixpoint et_cval (st : et_state) (intrz : bool) (c : et_cond) : bool * bool :=
       end
   | CFlag => (et_flag env, true)
   | CDeleted => (et_deleted env, es_deleted_known st)
+  | CWindow => (et_window env, true)
   | CVar v => match et_lookup (es_bools st) v with Some b => (b, true) | None => (false, false) end
   | CConst b => (b, true)
   | CNot a => let (v, k) := et_cval st intrz a in (negb v, k)
@@ -157,10 +164,10 @@ Fixpoint et_cval (st : et_state) (intrz : bool) (c : et_cond) : bool * bool :=
   end.
 
 Definition et_mark (st : et_state) (k : bool) : et_state :=
-  {| es_bools := es_bools st; es_strs := es_strs st; es_deleted_known := es_deleted_known st;
+  {| es_bools := es_bools st; es_strs := es_strs st; es_deleted_known := es_deleted_known st; es_tunnel := es_tunnel st;
      es_acts := es_acts st; es_ret := es_ret st; es_ok := es_ok st && k |}.
 Definition et_emit (st : et_state) (a : et_act) : et_state :=
-  {| es_bools := es_bools st; es_strs := es_strs st; es_deleted_known := es_deleted_known st;
+  {| es_bools := es_bools st; es_strs := es_strs st; es_deleted_known := es_deleted_known st; es_tunnel := es_tunnel st;
      es_acts := a :: es_acts st; es_ret := es_ret st; es_ok := es_ok st |}.
 
 Definition et_is_istrz (c : et_cond) : bool := match c with CIsTrz => true | _ => false end.
@@ -170,22 +177,26 @@ Fixpoint et_exec (intrz : bool) (s : et_stmt) (st : et_state) : et_state :=
   | TClean => et_emit st AClean
   | TSetBool v c =>
       let (b, k) := et_cval st intrz c in
-      et_mark {| es_bools := (v, b) :: es_bools st; es_strs := es_strs st; es_deleted_known := es_deleted_known st;
+      et_mark {| es_bools := (v, b) :: es_bools st; es_strs := es_strs st; es_deleted_known := es_deleted_known st; es_tunnel := es_tunnel st;
                  es_acts := es_acts st; es_ret := es_ret st; es_ok := es_ok st |} k
   | TSetStr v x =>
-      {| es_bools := es_bools st; es_strs := (v, x) :: es_strs st; es_deleted_known := es_deleted_known st;
+      {| es_bools := es_bools st; es_strs := (v, x) :: es_strs st; es_deleted_known := es_deleted_known st; es_tunnel := es_tunnel st;
          es_acts := es_acts st; es_ret := es_ret st; es_ok := es_ok st |}
   | TDelete =>
-      et_emit {| es_bools := es_bools st; es_strs := es_strs st; es_deleted_known := true;
+      et_emit {| es_bools := es_bools st; es_strs := es_strs st; es_deleted_known := true; es_tunnel := es_tunnel st;
                  es_acts := es_acts st; es_ret := es_ret st; es_ok := es_ok st |} ADelete
   | TSend t names =>
       match t with
-      | SLit x => et_emit st (ASend x names)
+      | SLit x => et_emit st (ASend x names (es_tunnel st))
       | SVar v => match et_lookup (es_strs st) v with
-                  | Some x => et_emit st (ASend x names)
+                  | Some x => et_emit st (ASend x names (es_tunnel st))
                   | None => et_mark st false
                   end
       end
+  | TSwitchWriter =>
+      (* *conn: only defined in the window (conn != nil) *)
+      et_mark {| es_bools := es_bools st; es_strs := es_strs st; es_deleted_known := es_deleted_known st;
+                 es_tunnel := true; es_acts := es_acts st; es_ret := es_ret st; es_ok := es_ok st |} (et_window env)
   | TExit names => et_emit st (AExit names)
   | TIf c a b =>
       let (v, k) := et_cval st intrz c in
@@ -198,7 +209,7 @@ Fixpoint et_exec (intrz : bool) (s : et_stmt) (st : et_state) : et_state :=
         (fix run (l : list et_stmt) (st : et_state) : et_state :=
            match l with [] => st | x :: t => let st' := et_exec intrz x st in if es_ret st' then st' else run t st' end) b st1
   | TReturn =>
-      {| es_bools := es_bools st; es_strs := es_strs st; es_deleted_known := es_deleted_known st;
+      {| es_bools := es_bools st; es_strs := es_strs st; es_deleted_known := es_deleted_known st; es_tunnel := es_tunnel st;
          es_acts := es_acts st; es_ret := true; es_ok := es_ok st |}
   | TUnknownStmt => et_mark st false
   end.
@@ -215,7 +226,7 @@ Definition et_run (preds : list et_pred) (body : list et_stmt) (e : et_err) (env
   let st := et_run_from preds e env body et_init in (rev (es_acts st), es_ok st).
 
 (* ---- the statement ---- *)
-Definition et_is_send (a : et_act) : bool := match a with ASend _ _ => true | _ => false end.
+Definition et_is_send (a : et_act) : bool := match a with ASend _ _ _ => true | _ => false end.
 Definition et_sends (l : list et_act) : list et_act := filter et_is_send l.
 
 (* the side is itself the victim of a line of the peer: the error IS the peer's exit / fail line *)
@@ -231,11 +242,13 @@ Definition et_word_of (e : et_err) : et_word := if et_traceback e then WFAIL els
 (* what the client must send *)
 Definition et_client_sends (e : et_err) (env : et_env) : list et_act :=
   if et_victim e then []
-  else if et_flag env && et_deleted env then [ASend WFail true]
-  else [ASend (et_word_of e) false].
-(* what the server must send *)
+  else if et_flag env && et_deleted env then [ASend WFail true false]
+  else [ASend (et_word_of e) false false].
+(* what the server must send: one line on the writer in force and, exactly in the window in
+   which a client may already listen to the tunnel only, the same line once more there *)
 Definition et_server_sends (e : et_err) (env : et_env) : list et_act :=
-  if et_victim e then [] else [ASend (et_word_of e) false].
+  if et_victim e then []
+  else ASend (et_word_of e) false false :: (if et_window env then [ASend (et_word_of e) false true] else []).
 
 Definition et_first_clean (l : list et_act) : bool := match l with AClean :: _ => true | _ => false end.
 Definition et_last_exit (l : list et_act) : bool := match rev l with AExit _ :: _ => true | _ => false end.
@@ -247,12 +260,13 @@ Definition et_all_errs : list et_err :=
   flat_map (fun z => flat_map (fun t => flat_map (fun tr => map (fun sd =>
     {| et_trz := z; et_typ := t; et_trace := tr; et_sad := sd |}) [false; true]) [false; true]) et_types) [false; true].
 Definition et_all_envs : list et_env :=
-  flat_map (fun f => map (fun d => {| et_flag := f; et_deleted := d |}) [false; true]) [false; true].
+  flat_map (fun f => flat_map (fun d => map (fun w => {| et_flag := f; et_deleted := d; et_window := w |})
+     [false; true]) [false; true]) [false; true].
 
 Definition et_act_eqb (a b : et_act) : bool :=
   match a, b with
   | AClean, AClean | ADelete, ADelete => true
-  | ASend x n, ASend y m => et_word_eqb x y && Bool.eqb n m
+  | ASend x n u, ASend y m v => et_word_eqb x y && Bool.eqb n m && Bool.eqb u v
   | AExit n, AExit m => Bool.eqb n m
   | _, _ => false
   end.
